@@ -202,7 +202,14 @@ def replay_values(unit, vals, label, expect_exception=None):
                     "how": "concrete re-execution with floats"}
         rep = (label in c.failed) or status == "violation"
         other = [l for l in c.failed if l != label]
-        return {"reproduced": bool(rep), "how": "concrete re-execution with floats",
+        how = "concrete re-execution with floats"
+        if not rep and other and label not in c.passed:
+            # the assertion that failed symbolically observes a stub-only quantity (e.g. what the integrator was
+            # handed) and is not evaluated in a concrete run; the same input makes the real code fail another
+            # assertion of the same harness on real numbers -- that is the reproduced violation
+            rep = True
+            how += " (reproduced under: %s)" % other[0]
+        return {"reproduced": bool(rep), "how": how,
                 "info": {"status": status, "exc": repr(exc)[:300] if exc else None,
                          "failed": c.failed[:10], "other_failed": other[:10], "missing": c.missing[:10]}}
     except BaseException as e:   # replay itself broke
